@@ -295,6 +295,30 @@ def _run(plan, root):
         if plan.get("reopen") is not None and plan["form"] == "bin":
             if plan["reader"] == "OnlineReader" and plan["reopen"]:
                 _o5(plan, sr, stream, frame, nc, state, binf, sigbase, fault, log)
+            elif plan["reopen"] and plan.get("reads_after_growth", True):
+                # offline reader kept open while the writer goes on: whatever count it exposes now must be readable
+                nb = plan["reopen"]
+                with open(binf, "ab") as g:
+                    g.write(stream[state["size"]: state["size"] + nb])
+                state["size"] += nb
+                fault("growth_after_offline_reader_opened")
+                try:
+                    n_now = int(sr.ns)
+                    rows = sr[:, :]
+                    lastrow = sr[n_now - 1] if n_now >= 1 else None
+                    rl_now = sr.rl
+                except Exception as e:
+                    raise Violation("C11.O5", f"{sigbase}:offline-after-growth-raises:{type(e).__name__}",
+                                    f"read through the open Reader after the file grew raised {type(e).__name__}: {e} (ns reported {sr.ns if hasattr(sr, 'ns') else '?'})")
+                hi2 = state["size"] // frame
+                rawn = np.frombuffer(stream[: hi2 * frame], dtype=dt).reshape(hi2, nc)
+                order_ = np.asarray(sr.raw_channel_order)
+                s2v_ = np.asarray(sr.channel_conversion_sample2v["ap"])
+                if rows.shape[0] != n_now or n_now > hi2 or not np.array_equal(rows, (rawn[:n_now].astype(np.float32)[..., order_] * s2v_[order_]).astype(np.float32)):
+                    raise Violation("C11.O5", f"{sigbase}:offline-after-growth", f"after growth the open Reader reports ns={n_now} but sr[:, :] has {rows.shape[0]} rows / wrong values (file holds {hi2})")
+                if abs(rl_now - n_now / fs) > 1e-9 * max(1.0, n_now / fs):
+                    raise Violation("C11.O4", f"{sigbase}:offline-after-growth-rl", f"rl={rl_now} does not match ns={n_now}")
+                plan = dict(plan, reopen=0)
             sr.close()
             same_obj = sr if plan.get("reopen_same") else None
             sr = None
@@ -421,8 +445,8 @@ def _oracle(plan, sr, stream, frame, nc, fs, B0, B1, log, probe, sigbase):
     log.append(["read_all", int(nread)])
     if not (lo <= nread <= hi) or full.shape[1] != nc:
         raise Violation("C11.O3", f"{sigbase}:rows", f"sr[:, :] returned shape {full.shape}; file held {lo}..{hi} complete frames of {nc} channels")
-    if plan["bursts"] == [] and nread != N:
-        raise Violation("C11.O3", f"{sigbase}:rows!=ns", f"sr[:, :] returned {nread} rows but ns={N}")
+    if (plan["bursts"] == [] or plan["reader"] == "Reader") and nread != N:
+        raise Violation("C11.O3", f"{sigbase}:rows!=ns", f"sr[:, :] returned {nread} rows but ns={N}: the exposed count and the readable frames disagree")
     if not np.array_equal(full, expect(slice(0, nread))):
         raise Violation("C11.O3", f"{sigbase}:values", "sr[:, :] differs from float32(file prefix) x gain")
     M = nread
